@@ -830,6 +830,56 @@ def check_C02(tier):
             chk.nontrivial.add("directory output re-run")
     finally:
         rmtree(d)
+    # scipipe's DEFAULT output names (no SetOut) for processes with two in-ports: in-place re-runs find the files of the first run
+    dn = dict(name="DEFN", max=2, bufsize=2,
+              procs=[zoo.src("s", ["1"]),
+                     dict(name="mka", kind="cmd", ins=["in"], outs=["out"], outpaths={"out": "a.txt"}, arg="cat {i:in} > {o:out}"),
+                     dict(name="mkb", kind="cmd", ins=["in"], outs=["out"], outpaths={"out": "b.txt"}, arg="cat {i:in} > {o:out}")] +
+                    [dict(name="mg%d" % k, kind="cmd", ins=["x", "y"], outs=["out"], defaultnames=True,
+                          arg="echo RAN mg%d >> ../ran.log; cat {i:x} {i:y} > {o:out|.txt}" % k) for k in range(6)],
+              edges=[zoo.E("s.out", "mka.in"), zoo.E("s.out", "mkb.in")] + [zoo.E("mka.out", "mg%d.x" % k) for k in range(6)] + [zoo.E("mkb.out", "mg%d.y" % k) for k in range(6)])
+    d = scratch("defn")
+    try:
+        prepare_dir(dn, d)
+        r1 = run_real(dn, d, timeout=40)
+        files1 = sorted(f for f in os.listdir(d) if f.endswith(".txt"))
+        ran1 = open(os.path.join(d, "ran.log")).read().count("RAN") if os.path.exists(os.path.join(d, "ran.log")) else 0
+        r2 = run_real(dn, d, timeout=40); r3 = run_real(dn, d, timeout=40); chk.evaluations += 3
+        files3 = sorted(f for f in os.listdir(d) if f.endswith(".txt"))
+        ran3 = open(os.path.join(d, "ran.log")).read().count("RAN") if os.path.exists(os.path.join(d, "ran.log")) else 0
+        if r1.rc != 0 or not r1.completed or ran1 != 6:
+            chk.undecided.append("default-name workflow failed: rc=%s ran=%s %s" % (r1.rc, ran1, r1.stderr[-200:]))
+        elif r2.rc != 0 or r3.rc != 0 or ran3 != ran1 or files3 != files1:
+            chk.violation("in-place re-runs of a completed workflow with default output names (two in-ports): %d further command executions, files before %d / after %d, exit %s / %s"
+                          % (ran3 - ran1, len(files1), len(files3), r2.rc, r3.rc), dict(instance=dn, new_files=sorted(set(files3) - set(files1))))
+        else:
+            chk.nontrivial.add("default names, two in-ports")
+    finally:
+        rmtree(d)
+    # outputs several directories deep: three runs in a row in the same directory (every skipped task leaves nothing behind)
+    deep = FB(2); deep["name"] = "FBDEEP"
+    for pr in deep["procs"]:
+        if pr["kind"] != "src": pr["outdir"] = "o/results/step_%s/" % pr["name"]
+    d = scratch("deep")
+    try:
+        prepare_dir(deep, d)
+        rrs = []
+        for _ in range(4):
+            for f in ("trace.ndjson", "cmdlog", "return_snapshot.json"):
+                try: os.remove(os.path.join(d, f))
+                except FileNotFoundError: pass
+            rrs.append(run_real(deep, d, timeout=40))
+        chk.evaluations += 4
+        left = [x for x in os.listdir(d) if x.startswith("_scipipe_tmp")]
+        if rrs[0].rc != 0 or not rrs[0].completed:
+            chk.undecided.append("deep-output workflow failed: %s" % rrs[0].stderr[-200:])
+        elif any(r.rc != 0 or not r.completed for r in rrs[1:]) or left or any(exec_counts(r.cmdlog) for r in rrs[1:]):
+            chk.violation("repeated in-place re-runs of a completed workflow with outputs several directories deep: exit status %s, temp dirs left %s, commands executed %s"
+                          % ([r.rc for r in rrs], left[:2], [sorted(exec_counts(r.cmdlog)) for r in rrs[1:]]), dict(instance=deep, stderr=rrs[-1].stderr[-300:]))
+        else:
+            chk.nontrivial.add("deep outputs, four runs")
+    finally:
+        rmtree(d)
     # partial presence inside a multi-output task (user deleted / placed one of two outputs)
     for pre in (["a.o2_1"], ["a.o1_1"]):
         inst = FA(extra=False); inst["pre"] = pre
